@@ -135,6 +135,12 @@ func (r *runner) runRange(from, to int, witness string, repeats int) {
 		if ee, ok := werr.(*exec.ExitError); ok {
 			code = ee.ExitCode()
 		}
+		if code == 2 {
+			// the child could not even start its work (run directory removed,
+			// unknown witness): nothing was decided
+			r.addIncon(fmt.Sprintf("child for cases [%d,%d) could not run: %s", from, to, strings.TrimSpace(string(tailBytes(logb, 300)))))
+			return
+		}
 		if witness != "" {
 			if code != 4 {
 				key, detail := classifyDeath(logb)
@@ -744,3 +750,10 @@ func Main(p *Prop) {
 }
 
 var _ = bytes.MinRead
+
+func tailBytes(b []byte, n int) []byte {
+	if len(b) > n {
+		return b[len(b)-n:]
+	}
+	return b
+}
